@@ -497,9 +497,10 @@ func main() {
 		{relMsg, xw.UserAuth, hv.Scale(10, 100), 5, hv.Scale(10, 100)},
 	}
 	type meta struct {
-		f     *xw.Format
-		in    []byte
-		class string
+		f       *xw.Format
+		in      []byte
+		class   string
+		compare bool // also evaluate on the model
 	}
 	var jobs []xw.Job
 	var metas []meta
@@ -512,10 +513,28 @@ func main() {
 			}
 			d, _ := json.Marshal(decJob{Dec: p.f.Name, Hex: hex.EncodeToString(in)})
 			jobs = append(jobs, xw.Job{ID: len(jobs), Kind: "decoders", Data: d})
-			metas = append(metas, meta{p.f, in, class})
+			metas = append(metas, meta{p.f, in, class, true})
+		}
+		// length-field sweep: every offset of representative valid messages overwritten with a
+		// huge 1-, 2-, 4-byte value, message cut right after. All are judged by the oracle; one in
+		// five (all in the thorough tier) is also compared with the model.
+		if p.gen.Sweep != nil {
+			k := 0
+			for _, v := range p.gen.Sweep() {
+				o := xw.RunEnc(p.gen, v)
+				if o.Code != xw.OK {
+					continue
+				}
+				for _, in := range xw.LengthSweep(o.Bytes) {
+					d, _ := json.Marshal(decJob{Dec: p.f.Name, Hex: hex.EncodeToString(in)})
+					jobs = append(jobs, xw.Job{ID: len(jobs), Kind: "decoders", Data: d})
+					metas = append(metas, meta{p.f, in, "length-sweep", hv.Thorough() || k%5 == 0})
+					k++
+				}
+			}
 		}
 	}
-	results := xw.RunJobs("decoders", jobs, 60*time.Second, 4)
+	results := xw.RunJobs("decoders", jobs, 60*time.Second, 6)
 	for id, m := range metas {
 		res := results[id]
 		fn := strings.Replace(m.f.DecFn, "c18_", "c11_", 1)
@@ -530,12 +549,14 @@ func main() {
 		default:
 			var o decOut
 			json.Unmarshal(res.Out, &o)
-			c.Fn, c.Coq = fn, o.Coq
+			if m.compare {
+				c.Fn, c.Coq = fn, o.Coq
+			}
 			if o.Code == xw.PANIC {
 				c.Spec, c.Sig, c.What = false, "C11:"+m.f.Name+"-decoder-panics", "decoder panicked: "+o.Msg
 			} else if o.Alloc > bound {
 				c.Spec, c.Sig = false, "C11:"+m.f.Name+"-decoder-over-allocates"
-				c.What = fmt.Sprintf("%d bytes allocated for %d bytes of input (bound %d*len + %d)", o.Alloc, len(m.in), allocSlope, allocConst)
+				c.What = fmt.Sprintf("%d bytes allocated while decoding %d bytes of input (bound %d*len + %d): %s", o.Alloc, len(m.in), allocSlope, allocConst, hex.EncodeToString(m.in[:min(len(m.in), 300)]))
 			}
 		}
 		hv.Emit(c)
